@@ -225,7 +225,19 @@ pub fn hash(r: &mut Rng, n: u64, x: &mut Exec, sink: &mut Sink, which: &str) {
             wf = false;
             let ws = if class == 32 { 4 } else { 8 };
             let rd32 = |b: &[u8], o: usize| -> u32 { let mut a = [0u8; 4]; a.copy_from_slice(&b[o..o + 4]); if little { u32::from_le_bytes(a) } else { u32::from_be_bytes(a) } };
-            match r.below(7) {
+            match r.below(9) {
+                // header fields at their boundary values, with every bloom bit set so that lookups get past the filter:
+                // nbucket / nbloom = 0, nshift >= the word size, symoffset past the table
+                7 | 8 => {
+                    if which == "gnu" {
+                        let nbl = rd32(&tb, 8) as usize;
+                        for i in 16..(16 + ws * nbl).min(tb.len()) { tb[i] = 0xff; }
+                    }
+                    let nf = if which == "gnu" { 4 } else { 2 };
+                    let f = r.below(nf) as usize * 4;
+                    let v: u64 = *r.pick(&[0u64, 0, 1, 31, 32, 33, 63, 64, 65, 255, 0x7fff_ffff, 0x8000_0000, 0xffff_ffff]);
+                    let mut w = Vec::new(); put(&mut w, v, 4, little); tb[f..f + 4].copy_from_slice(&w);
+                }
                 0 => { let i = r.below(tb.len() as u64) as usize; tb[i] = r.next() as u8; }
                 1 => { let f = r.below(if which == "gnu" { 4 } else { 2 }) as usize * 4; let v = r.edge64(); let mut w = Vec::new(); put(&mut w, v, 4, little); tb[f..f + 4].copy_from_slice(&w); }
                 2 => { let k = r.below(tb.len() as u64 + 1) as usize; tb.truncate(k); }
